@@ -86,6 +86,18 @@ package pool
 //@ func (*bitmapSectorAllocator).allocateAt
 //@   props C15
 //@   ensures allocation-at-a-free-word-succeeds: r2 == nil
+// Giving a run of sectors back walks over every bitmap word the run touches:
+// either the run ends inside its first word, or the walk ends exactly at the
+// end of the run (word index * 64 + sectors still to free in that word == end
+// of the run), whatever the length of the run and wherever word boundaries lie.
+//@ func (*bitmapSectorAllocator).FreeContiguous
+//@   props C15
+//@   requires firstSector >= 1 && count >= 1
+//@   loop 0 invariant position: index * 64 + count == firstSector + old(count)
+//@   loop 0 invariant remaining: count >= 0
+//@   loop 0 invariant start: firstSector == old(firstSector) - 1
+//@   ensures the-whole-run-is-given-back-up-to-its-last-sector:
+//@             count <= 64 - offsetWithinFirstWord || index == (firstSector - 1 + count) / 64
 //@ func (*bitmapSectorAllocator).AllocateContiguous
 //@   props C15
 //@   assume len(sa.freeBitmap) <= 67108865 && sa.nextSector / 64 < len(sa.freeBitmap) -- the bitmap was built for a 32-bit sector count (NewBitmapSectorAllocator) and the scan position lies inside it
